@@ -154,6 +154,9 @@ CORPUS = [
     # two flags taken from different items of one result
     dict(kind="sched", n=3, edges=[], attrs=[dict(priority=0, is_sequential=False, resource="thread")] * 3, flags={"1": ["node", 0, 0], "2": ["node", 0, 1]}, rets=[[1, 0], 1, 1], fails=[], maxc=1, is_async=False, mode="call"),
     dict(kind="sched", n=3, edges=[], attrs=[dict(priority=0, is_sequential=False, resource="thread"), dict(priority=1, is_sequential=False, resource="thread"), dict(priority=2, is_sequential=False, resource="thread")], flags={"1": ["node", 0, 0], "2": ["node", 0, 1]}, rets=[[1, 0], 1, 1], fails=[], maxc=2, is_async=True, mode="call"),
+    # a failing debug node with a debug dependent, RUN_DEBUG_NODES on
+    dict(kind="sched", n=3, edges=[[0, 1], [1, 2]], attrs=[dict(priority=0, is_sequential=False, resource="thread")] * 3, flags={}, rets=[1, 1, 1], fails=[1], maxc=2, is_async=False, mode="call", debug=[1, 2], run_debug=True),
+    dict(kind="sched", n=3, edges=[[0, 1], [1, 2]], attrs=[dict(priority=0, is_sequential=False, resource="async-thread")] * 3, flags={}, rets=[1, 1, 1], fails=[1], maxc=2, is_async=True, mode="call", debug=[1, 2], run_debug=True),
     # flag from a node result (falsy)
     dict(kind="sched", n=3, edges=[[0, 2]], attrs=[dict(priority=0, is_sequential=False, resource="thread")] * 3, flags={"2": ["node", 1]}, rets=[1, 0, 1], fails=[], maxc=2, is_async=False, mode="call"),
 ]
@@ -300,7 +303,7 @@ def segments(trace, ctl):
             continue
         if e[0] in ("ENTER", "EXIT", "XENTER", "XEXIT") and not e[2]:
             continue  # worker-thread events: position is not meaningful for the scheduler LTS
-        if e[0] in ("ENTER", "EXIT"):
+        if e[0] in ("ENTER", "EXIT", "BOOM"):
             continue  # inline function body: covered by XENTER/XEXIT
         curseg["evs"].append(e)
         if e[0] == "END":
@@ -533,6 +536,18 @@ def monitors(cfg, trace_seg_all, labels, end):
             if best:
                 errs.append(("C06", "node %s (cp %s) started while %s with greater compound priority ready" % (n, cfg["cp"][n], best)))
             startedset.add(n)
+    # a node whose function raised has not returned: its execution must be reported as failed, the call must fail,
+    # and nothing that depends on it may start (C14); a dependent that starts has a dependency that never returned (C02)
+    boomed = [e[1] for e in trace_seg_all if e[0] == "BOOM"]
+    for n in boomed:
+        ok_exit = [x for x in xexit.get(n, []) if x[1]]
+        if ok_exit:
+            errs.append(("C14", "the function of node %s raised, but its execution was reported as successful (value %r)" % (n, ok_exit[0][2])))
+            for m in nodes:
+                if n in deps.get(m, set()) and m in xenter:
+                    errs.append(("C02", "node %s was entered although its dependency %s raised and never returned" % (m, n)))
+        if end == ("ok",):
+            errs.append(("C14", "the function of node %s raised, but the call returned normally" % n))
     # C14
     if end is not None and end[0] == "raise":
         if end[1] is None:
